@@ -32,5 +32,5 @@ MCSizes64Q(c) == { N(0), N(1), N(4097), W!Sub(c, N(4095)), c, W!Add(c, N(1)),
 \* smallest family (sequences of three)
 MCSizes64T(c) == { N(0), N(4097), W!Sub(c, N(4095)), W!Add(c, N(1)), <<65535, 65535, 65535, 61441>>,
                    <<0, 4096, 0, 0>>, <<0, 4096, 0, 20480>> }
-MCFrames64 == {<<0, 0, 13, 61440>>}          \* frame 0xdf000
+MCFrames64 == {<<0, 0, 13, 61441>>}          \* frame 0xdf001 (odd: frame + i differs from frame | i at once)
 ====
